@@ -139,3 +139,47 @@ class VisitGateAssumed:
         return isinstance(result, list) and len(result) >= 2 and result[0] == "gate"
 
     raises_only = ("JaqalError",)
+
+
+from jaqalpaq.core.register import NamedQubit, Register
+from jaqalpaq.core.algorithm.fill_in_let import RegisterVisitor
+
+
+@contract("core.algorithm.fill_in_let:RegisterVisitor.visit_NamedQubit", props=["C05", "C06"])
+class RegVisitQubit:
+    """a single-qubit alias `map t src[k]` is re-declared with k replaced by its value in the chosen environment"""
+
+    def requires(self, qubit):
+        return (wf_filler(self) and type_is(self, RegisterVisitor) and type_is(qubit, NamedQubit) and is_str(qubit._name)
+                and isinstance(qubit._alias_from, Register) and is_str(qubit._alias_from._name)
+                and (is_int(qubit._alias_index) or (type_is(qubit._alias_index, Constant) and (has_key(self.override_dict, qubit._alias_index._name) or is_int(qubit._alias_index._value)))))
+
+    def ensures(self, qubit, result):
+        return (isinstance(result, list) and len(result) == 4 and result[0] == "map" and result[1] == qubit._name
+                and result[2] == qubit._alias_from._name and same(result[3], subst(self, qubit._alias_index)))
+
+    raises_only = ("JaqalError",)
+
+
+@contract("core.algorithm.fill_in_let:LetFiller.visit_NamedQubit", props=["C05", "C06"])
+class LetVisitQubit:
+    """a qubit reference is re-expressed by name: the alias name itself for a declared single-qubit alias, else
+    array_item(source name, index) with a let index replaced by its environment value and a parameter index by its name"""
+
+    def requires(self, qubit):
+        return (wf_filler(self) and type_is(self, LetFiller) and isinstance(self.register_names, set) and type_is(qubit, NamedQubit) and is_str(qubit._name)
+                and (isinstance(qubit._alias_from, Register) or isinstance(qubit._alias_from, Parameter)) and is_str(qubit._alias_from._name)
+                and (is_int(qubit._alias_index) or isinstance(qubit._alias_index, Parameter)
+                     or (type_is(qubit._alias_index, Constant) and (has_key(self.override_dict, qubit._alias_index._name) or is_int(qubit._alias_index._value)))))
+
+    def ensures_alias(self, qubit, result):
+        return implies(qubit._name in self.register_names, same(result, qubit._name))
+
+    def ensures_item(self, qubit, result):
+        return implies(not (qubit._name in self.register_names),
+                       isinstance(result, tuple) and len(result) == 3 and result[0] == "array_item" and result[1] == qubit._alias_from._name
+                       and implies(type_is(qubit._alias_index, Constant), same(result[2], cval(self, qubit._alias_index)))
+                       and implies(is_int(qubit._alias_index), same(result[2], qubit._alias_index))
+                       and implies(isinstance(qubit._alias_index, Parameter), same(result[2], qubit._alias_index._name)))
+
+    raises_only = ("JaqalError",)
